@@ -266,34 +266,40 @@ func ruleForEachVisibility(r *Run) {
 	}
 	var okWithout, okBy, byNonNil []ssa.Value
 	var byTrueWhenNonNil bool
-	for b := range loop.Blocks {
-		for _, in := range b.Instrs {
-			switch x := in.(type) {
-			case *ssa.Lookup:
-				if !x.CommaOk {
-					continue
-				}
-				f, base, ok := loadOfField(x.X)
-				if !ok || base != ssa.Value(fn.Params[0]) {
-					continue
-				}
-				for _, ref := range *x.Referrers() {
-					if e, ok := ref.(*ssa.Extract); ok && e.Index == 1 {
-						switch f {
-						case "without":
-							okWithout = append(okWithout, e)
-						case "by":
-							okBy = append(okBy, e)
-						}
+	isAggField := func(v ssa.Value, name string) bool {
+		f, base, ok := loadOfField(v)
+		return ok && f == name && typeKey(base.Type()) == "aggregatedLabels"
+	}
+	scan := func(in ssa.Instruction) {
+		switch x := in.(type) {
+		case *ssa.Lookup:
+			if !x.CommaOk {
+				return
+			}
+			for _, ref := range *x.Referrers() {
+				if e, ok := ref.(*ssa.Extract); ok && e.Index == 1 {
+					switch {
+					case isAggField(x.X, "without"):
+						okWithout = append(okWithout, e)
+					case isAggField(x.X, "by"):
+						okBy = append(okBy, e)
 					}
 				}
-			case *ssa.BinOp:
-				if v, nn, ok := nilCheck(x); ok {
-					if f, base, ok := loadOfField(v); ok && f == "by" && base == ssa.Value(fn.Params[0]) {
-						byNonNil = append(byNonNil, x)
-						byTrueWhenNonNil = nn
-					}
-				}
+			}
+		case *ssa.BinOp:
+			if v, nn, ok := nilCheck(x); ok && isAggField(v, "by") {
+				byNonNil = append(byNonNil, x)
+				byTrueWhenNonNil = nn
+			}
+		}
+	}
+	for _, gf := range funcGroup(fn) {
+		for _, b := range gf.Blocks {
+			if gf == fn && !loop.Blocks[b] {
+				continue
+			}
+			for _, in := range b.Instrs {
+				scan(in)
 			}
 		}
 	}
@@ -311,7 +317,7 @@ func ruleForEachVisibility(r *Run) {
 					okBy[0]:      constant.MakeBool(inBy),
 					byNonNil[0]:  constant.MakeBool(hasBy == byTrueWhenNonNil),
 				}
-				w := &feWalker{Fn: fn, Assume: assume}
+				w := &feWalker{Fn: fn, Assume: assume, Inline: inlineHelpers(fn)}
 				called := false
 				for _, e := range w.RunFrom(loop.Body, loop.Header) {
 					for _, c := range e.State.calls {
